@@ -2,7 +2,7 @@
 import warnings
 
 from core import Case, enc_b, enc_s, enc_header, psec
-from props.tr31util import VERS, rb, rs, rand_blocks, make_header, header_tuple, unwrap_case, wrap_case, UNWRAP_TOK, tr31
+from props.tr31util import VERS, rb, rs, rand_blocks, make_header, header_tuple, unwrap_case, wrap_case, UNWRAP_TOK, tr31, Session
 
 OBLIGATIONS = []
 TRUSTED_BASE = ["Lean 4.33 kernel", "Spec/TR31.lean + Spec/CMAC.lean are my reading of TR-31:2018 and SP 800-38B (validated against the repository's vectors and OpenSSL's CMAC, not proved)",
@@ -70,6 +70,21 @@ def generate(rng, tier, seed):
         c.pred("Spec.cmac = OpenSSL CMAC", lambda rep, i=i, want=want: None if rep[i] == "ok\t" + enc_b(want) else f"Spec.cmac {rep[i]} != OpenSSL {want.hex()}")
         yield c
     for ver, (bs, ksizes, ml) in VERS.items():
+        for _ in range(4 * reps):
+            # one KeyBlock object, KBPK replaced between wraps: every block must be valid for the specification under the KBPK in force
+            c = Case(f"{ver}:reused-object-to-spec", {})
+            h = make_header(rng, ver, rand_blocks(rng, 1))
+            se = Session(c, rb(rng, rng.choice(ksizes)), h)
+            for _ in range(3):
+                key = rb(rng, 16)
+                w = se.wrap(key, None)
+                if w.ok:
+                    i = c.line(f"spec.tr31_unwrap\t{enc_b(se.kbpk)}\t{enc_s(w.value)}")
+                    want = "ok\t" + enc_header(se.kb.header) + "\t" + enc_b(key)
+                    c.pred("block from a reused object is valid per the specification under the current KBPK",
+                           lambda rep, i=i, want=want: None if rep[i] == want else f"specification says {rep[i][:100]}")
+                se.setkbpk(rb(rng, rng.choice(ksizes)))
+            yield c
         for ksize in ksizes:
             for _ in range(6 * reps):
                 kbpk = rb(rng, ksize)
